@@ -243,11 +243,11 @@ def r18_4(prog, rep):
 
 def run(prog, rep, tier, snap):
     rep.rule("R18.1", "64-bit accumulation in the duration parser", 2)
-    r18_1(prog, rep)
+    rep.call(r18_1, prog, rep)
     rep.rule("R18.2", "every sign alternative reaches the value parser", 4)
-    r18_2(prog, rep)
+    rep.call(r18_2, prog, rep)
     rep.rule("R18.3", "unit letters and multipliers agree between idiff_strf and idiff_strp", 8)
-    r18_3(prog, rep)
+    rep.call(r18_3, prog, rep)
     rep.rule("R18.4", "the instant parser's default window covers the printers' longest output", 2)
-    r18_4(prog, rep)
+    rep.call(r18_4, prog, rep)
 READY = True
